@@ -95,6 +95,8 @@ pub struct Stats {
 }
 
 pub struct Ctx {
+    // per kind: [steps observed, value fields compared, relational comparisons (determinism / effective input / suffix / parts / range / degenerate / order)]
+    pub by_kind: HashMap<String, [u64; 3]>,
     // C05: (configuration, literal history) -> (hash of output bits, behaviour line), across all behaviours
     pub global: HashMap<(u64, u64, u64), (u64, u64)>,
     pub prop: String,
@@ -147,7 +149,7 @@ fn rel_close(a: f64, b: f64, rel: f64, floor: f64) -> bool {
 
 impl Ctx {
     pub fn new(prop: &str) -> Ctx {
-        Ctx { global: HashMap::new(), prop: prop.to_string(), stats: Stats::default(), violations: vec![], vio_total: 0, distinct: HashSet::new(), max_vio: 40 }
+        Ctx { by_kind: HashMap::new(), global: HashMap::new(), prop: prop.to_string(), stats: Stats::default(), violations: vec![], vio_total: 0, distinct: HashSet::new(), max_vio: 40 }
     }
 
     fn violate(&mut self, line_no: u64, unit: &Unit, step: usize, live: Option<&Live>, clause: &str, detail: Value) {
@@ -227,6 +229,7 @@ pub struct RecStep {
 }
 
 pub struct Run<'a> {
+    pub pending_kind: Option<(String, (u64, u64))>,
     pub rec: Option<Vec<RecStep>>,
     pub unit: &'a Unit,
     pub line_no: u64,
@@ -278,7 +281,7 @@ pub fn unit_ok(line: &Value, unit: &Unit) -> Option<Unit> {
 
 impl<'a> Run<'a> {
     pub fn new(unit: &'a Unit, line_no: u64) -> Run<'a> {
-        Run { rec: None, unit, line_no, insts: HashMap::new(), blobs: HashMap::new(), strict_map: HashMap::new(), eff_map: HashMap::new() }
+        Run { pending_kind: None, rec: None, unit, line_no, insts: HashMap::new(), blobs: HashMap::new(), strict_map: HashMap::new(), eff_map: HashMap::new() }
     }
 
     fn bar_of(&self, op: &Value) -> (Bar, [i64; 5]) {
@@ -485,6 +488,18 @@ impl<'a> Run<'a> {
     }
 
     pub fn feed(&mut self, ctx: &mut Ctx, idx: usize, op: &Value, ob: Option<&Value>) {
+        self.feed_inner(ctx, idx, op, ob);
+        if let Some((k, before)) = self.pending_kind.take() {
+            let after = (ctx.stats.fields_compared, ctx.stats.det_compared + ctx.stats.eff_compared + ctx.stats.range_checked + ctx.stats.deg_checked
+                + ctx.stats.ord_checked + ctx.stats.wired_compared + ctx.stats.returns_checked + ctx.stats.heap_checked + ctx.stats.markov_checked);
+            let e = ctx.by_kind.entry(k).or_insert([0, 0, 0]);
+            e[0] += 1;
+            e[1] += after.0 - before.0;
+            e[2] += after.1 - before.1;
+        }
+    }
+
+    fn feed_inner(&mut self, ctx: &mut Ctx, idx: usize, op: &Value, ob: Option<&Value>) {
         let i = op["i"].as_i64().unwrap();
         let name = op["op"].as_str().unwrap();
         let prop = ctx.prop.clone();
@@ -563,6 +578,10 @@ impl<'a> Run<'a> {
         }
         l.strict = h2(l.strict, &lits, 1);
         ctx.stats.steps += 1;
+        let before = (ctx.stats.fields_compared, ctx.stats.det_compared + ctx.stats.eff_compared + ctx.stats.range_checked + ctx.stats.deg_checked
+            + ctx.stats.ord_checked + ctx.stats.wired_compared + ctx.stats.returns_checked + ctx.stats.heap_checked + ctx.stats.markov_checked);
+        let kind_name = l.cfg.kind.clone();
+        self.pending_kind = Some((kind_name, before));
         let raw = match raw {
             Ok(Some(r)) => r,
             Ok(None) => {
